@@ -48,9 +48,11 @@ impl<'a> FciParser<'a> for Rpsi<'a> {
             });
         }
         let ret = Self { data };
-        if ret.padding_bytes() > data.len() - 2 {
+        // the padding bits are part of the bit string: there cannot be more of them than string bits
+        let padded_bytes = (data[0] as usize + 7) / 8;
+        if padded_bytes > data.len() - 2 {
             return Err(RtcpParseError::Truncated {
-                expected: ret.padding_bytes() + 2,
+                expected: padded_bytes + 2,
                 actual: data.len(),
             });
         }
